@@ -59,6 +59,8 @@ class Contract:
     self.free = {}                     # closure variable name -> kind | factory
     self.result = None                 # kind (None => returns None)
     self.requires = []
+    self.assumes = []                  # assumed at entry, NOT checked at call sites (class
+                                       # invariants, definitions of spec functions)
     self.ensures = []
     self.raises = []
     self.exc_ensures = []              # hold on EVERY exceptional exit
@@ -105,6 +107,12 @@ class Contract:
 
   def require(self, label, fn):
     self.requires.append(Clause(label, fn))
+
+  def assume_entry(self, label, fn, why):
+    self.assumes.append(Clause(label, fn))
+    note = f'{label}: {why}'
+    if note not in self.assumptions:
+      self.assumptions.append(note)
 
   def ensure(self, label, fn, props=None):
     self.ensures.append(Clause(label, fn, props))
